@@ -228,6 +228,14 @@ def gen_sdl(seed, idx):
         out.append("extend enum Color%s {\n  PURPLE\n}" % _dirs(r, "ENUM"))
     if r.random() < 0.3:
         out.append("extend input Pt {\n  z: Int\n}")
+    if r.random() < 0.35:
+        # legal user types with ONE leading underscore (federation style):
+        # only names starting with two underscores are reserved
+        out.append("union _Entity = %s" % " | ".join(objs[:2]))
+        out.append("type _Service {\n  sdl: String\n  owner: %s\n"
+                   "  parts: [%s!]\n}" % (objs[0], objs[-1]))
+        out.append("extend type %s {\n  _entities: [_Entity]\n"
+                   "  _service: _Service\n}" % qname)
     if r.random() < 0.3:
         # an ordinary object type whose name is a root operation name in
         # another case (root types are found by their exact names)
@@ -264,7 +272,10 @@ def code_schema(idx):
                              ("THIRD", "third")])
     stamp = ScalarType(
         "Stamp", serialize=lambda v: "S:%d" % v,
-        parse=lambda v: int(str(v)[2:]), description="custom scalar")
+        parse=lambda v: int(str(v)[2:]), description="custom scalar",
+        # literals are parsed by a function of their own
+        parse_literal=lambda node, variables=None: int(
+            str(node.value)[2:]))
     box = InputObjectType(
         "Box",
         [
